@@ -106,6 +106,14 @@ Proof.
   destruct (find_consumer ch tag) as [cm|]; [|reflexivity].
   destruct (consume_msg cm). simpl. apply queues_set_chan.
 Qed.
+Lemma queues_wake_consumers cfg s c h : queues (wake_consumers cfg s c h) = queues s.
+Proof.
+  unfold wake_consumers, wake_all_of_chan. destruct (cfg_rabbit cfg); [apply queues_upd_chan|].
+  destruct (get_conn _ c) as [cn|]; [|apply queues_upd_chan].
+  match goal with |- queues (fold_left ?F ?l ?st) = _ => assert (H : forall l0 st0, queues (fold_left F l0 st0) = queues st0) end.
+  { induction l0 as [|x t IH]; intros st0; simpl; auto. rewrite IH. destruct (fst x =? h); auto. apply queues_upd_chan. }
+  rewrite H. apply queues_upd_chan.
+Qed.
 Lemma queues_ensure_chan s c h : queues (ensure_chan s c h) = queues s.
 Proof. unfold ensure_chan. destruct (get_conn s c) as [cn|]; [|reflexivity]. destruct (alookup _ _ _); reflexivity. Qed.
 Lemma queues_add_confirm s c h t : queues (add_confirm s c h t) = queues s.
